@@ -72,3 +72,86 @@ def _(c):
     nowiden = (f"implies({KINDS} and {PLAIN} and not isa(value, AnnotatedValue),"
                " all(forall(lambda o: implies(mem(o, r), mem(o, value) or ite(self.constraint_type == ConstraintType.is_instance, inst(o, self.value) or promo(o, self.value), is_lit(o, self.value))), 'obj') for r in result))")
     c.ensures(nowiden, name="never_wider_than_the_original_and_the_tested_type")
+
+
+# ---------------------------------------------------------------------------
+# truthiness verdicts
+
+@contract("pyanalyze.boolability.Boolability.is_safely_true", props=P)
+def _(c):
+    c.returns("bool")
+    c.ensures("result == (self is Boolability.value_always_true or self is Boolability.value_always_true_mutable or self is Boolability.type_always_true)", name="the_three_true_verdicts")
+
+
+@contract("pyanalyze.boolability.Boolability.is_safely_false", props=P)
+def _(c):
+    c.returns("bool")
+    c.ensures("result == (self is Boolability.value_always_false)", name="only_the_immutable_false_verdict")
+
+
+for q in ("pyanalyze.safe.safe_hasattr", "pyanalyze.safe.safe_getattr"):
+    def _b(c):
+        c.returns("val")
+        c.functional = True
+    contract(q, props=P, kind="assumed")(_b)
+
+
+@contract("pyanalyze.boolability._get_type_boolability", props=P)
+def _(c):
+    c.param("is_exact", "bool")
+    c.returns("val")
+    c.functional = True
+    c.ensures("result is Boolability.boolable or result is Boolability.type_always_true or result is Boolability.erroring_bool", name="one_of_three_verdicts")
+    c.ensures("(result is Boolability.type_always_true) == (not (typ is object and not is_exact) and not truthy(safe_hasattr(typ, '__len__')) and safe_getattr(typ, '__bool__', None) is None)",
+              name="always_true_iff_the_class_has_neither_len_nor_bool")
+    # the verdict must be right for every object of the type (C02, third sentence)
+    c.ensures("implies(result is Boolability.type_always_true, forall(lambda o: implies(inst(o, typ), truth(o)), 'obj'))", name="an_always_true_verdict_is_right_for_every_instance")
+    c.ensures("implies(result is Boolability.type_always_true and is_exact, forall(lambda o: implies(exact_inst(o, typ), truth(o)), 'obj'))", name="an_always_true_verdict_is_right_for_exact_instances")
+
+
+# ---------------------------------------------------------------------------
+# predicates behind `predicate` constraints (isinstance against generics, ==, in, match patterns)
+
+@contract("pyanalyze.value._deliteral", props=P, kind="assumed")
+def _(c):
+    c.returns("val")
+    c.functional = True
+    c.ensures("subset(value, result) and implies(static(value), static(result))", name="widens_literals_to_their_types")
+    c.assume("_deliteral replaces literals by their types: a superset with the same staticness")
+
+
+@contract("pyanalyze.value.is_overlapping", props=P)
+def _(c):
+    c.returns("bool")
+    c.functional = True
+    c.ensures("implies(not result and static(left) and static(right), forall(lambda o: not (mem(o, left) and mem(o, right)), 'obj'))", name="no_overlap_means_disjoint")
+    c.ensures("implies(not isa(_deliteral(left), MultiValuedValue), result == (_deliteral(left).is_assignable(_deliteral(right), ctx) or _deliteral(right).is_assignable(_deliteral(left), ctx)))",
+              name="overlap_is_assignability_one_way_or_the_other")
+
+
+@contract("pyanalyze.value.unannotate", props=P + ["C14"])
+def _(c):
+    c.returns("val")
+    c.functional = True
+    c.ensures("same(result, ite(isa(value, AnnotatedValue), value.value, value))", name="strips_one_annotation_layer")
+
+
+@contract("pyanalyze.predicates.is_universally_assignable", props=P, kind="assumed")
+def _(c):
+    c.returns("bool")
+    c.functional = True
+    c.ensures("implies(static(value) and value is not NO_RETURN_VALUE, not result)", name="static_values_are_not_universally_assignable")
+    c.assume("is_universally_assignable is True only for Never, Any, type vs type[...] and TypeVars (gradual forms), never for other static values")
+
+
+@contract("pyanalyze.predicates.IsAssignablePredicate.__call__", props=P)
+def _(c):
+    c.param("positive", "bool")
+    c.returns("opt[val]")
+    c.fieldspec("positive_only", "bool")
+    c.let("pat", "self.pattern_value")
+    keep = ("implies(static(value) and static(pat) and (positive or not self.positive_only),"
+            " forall(lambda o: implies(mem(o, value) and mem(o, pat) == positive, result is not None and mem(o, result)), 'obj'))")
+    c.ensures(keep, name="keeps_every_object_the_test_admits")
+    c.ensures("result is None or result is value or result is pat", name="never_wider_than_the_original_or_the_pattern")
+    c.ensures("implies(not positive and self.positive_only, result is value)", name="positive_only_predicates_do_not_narrow_the_negative_branch")
